@@ -324,7 +324,32 @@ func (c *Ctx) execOne(args []string, inExec bool) Exp {
 		// queued inside MULTI: a no-op that answers OK (EXEC drops the watches anyway)
 		c.unwatch()
 		return OK()
-	case "client", "command", "info":
+	case "client":
+		if len(args) >= 2 {
+			switch strings.ToLower(args[1]) {
+			case "setname":
+				if len(args) != 3 {
+					return ErrExp("ERR")
+				}
+				for _, ch := range args[2] {
+					if ch < 33 || ch > 126 {
+						return ErrExp("ERR")
+					}
+				}
+				s.Name = args[2]
+				return OK()
+			case "getname":
+				if len(args) != 2 {
+					return ErrExp("ERR")
+				}
+				if s.Name == "" {
+					return NilExp()
+				}
+				return BulkExp(s.Name)
+			}
+		}
+		return UnspecRO("introspection command not modelled")
+	case "command", "info":
 		return UnspecRO("introspection command not modelled")
 	}
 	return c.exec(args)
